@@ -38,7 +38,8 @@ namespace c01
             return n[k];
         }
         static int depth_quick() { return 5; }
-        static int depth_thorough() { return 7; }
+        static int depth_thorough() { return 6; }
+        static int leaf_sample_den(bool thorough) { return thorough ? 1 : 1; }
         static uint64_t random_quick() { return 1000; }
         static uint64_t random_thorough() { return 100000; }
         static bool is_removal_or_move(int k) { return k == K_POP; }
@@ -125,7 +126,7 @@ namespace c01
             case K_ADD:
                 return st[x] == FREE && (t < L || st[t - L] == IN);
             case K_POP:
-                return t == 0 && x < L; // also on an empty list: must return NULL
+                return t == 0 && x < L && !model[x].empty(); // popping an empty list is not part of the statement
             case K_ADDX:
                 return st[x] == FREE && t < XL;
             case K_DESTROY:
@@ -197,15 +198,7 @@ namespace c01
                 break;
             case K_POP:
             {
-                set_tag(model[x].empty() ? "slist_pop_first@empty" : "slist_pop_first");
-                if (model[x].empty())
-                {
-                    slist_head *r = slist_pop_first(head[x]);
-                    if (r != nullptr)
-                        bad("pop!=model", "slist_pop_first on an empty list returned a non-null link");
-                    VF_OK("slist: slist_pop_first on an empty list returns NULL");
-                    break;
-                }
+                set_tag(model[x].size() == 1 ? "slist_pop_first@last" : "slist_pop_first");
                 int want = model[x].front();
                 long got;
                 if (v & 1)
@@ -267,9 +260,10 @@ namespace c01
                     return "freed n" + std::to_string(i);
             return "unknown address";
         }
-        Seq raw_walk(const slist_head *h, int l, bool cxx)
+        const Seq &raw_walk(const slist_head *h, int l, bool cxx)
         {
-            Seq out;
+            static Seq out;
+            out.clear();
             int budget = N + 2;
             const slist_head *e = h;
             for (;;)
@@ -305,7 +299,8 @@ namespace c01
                 const std::list<int> &m = model[l];
                 expect_seq("forward!=model", "raw next walk", l, raw_walk(h, l, false), m);
                 VF_OK("slist: forward == model, no stale or removed node reachable");
-                Seq got;
+                static Seq got;
+                got.clear();
                 slist_head *it;
                 sobj *pos;
                 observing("slist_for_each");
@@ -319,11 +314,11 @@ namespace c01
                 int k = c_sl_each(h, buf, B);
                 if (k < 0)
                     bad("structure:cycle", "C slist_for_each of list %d exceeds %d steps", l, B);
-                expect_seq("forward!=model", "C slist_for_each", l, seq_of(buf, k), m);
+                expect_ids("forward!=model", "C slist_for_each", l, buf, k, m);
                 k = c_sl_each_entry(h, buf, B);
                 if (k < 0)
                     bad("structure:cycle", "C slist_for_each_entry of list %d exceeds %d steps", l, B);
-                expect_seq("forward!=model", "C slist_for_each_entry", l, seq_of(buf, k), m);
+                expect_ids("forward!=model", "C slist_for_each_entry", l, buf, k, m);
                 VF_OK("slist: slist_for_each / slist_for_each_entry (C++ and C) == model");
                 observing("slist_size");
                 if (slist_size(h) != (int)m.size() || !!slist_empty(h) != m.empty())
@@ -350,7 +345,8 @@ namespace c01
                 XSList &li = *xl[l];
                 const std::list<int> &m = model[LMAX + l];
                 observing("igris::slist iteration");
-                Seq got;
+                static Seq got;
+                got.clear();
                 for (XSList::iterator it = li.begin(); it != li.end(); ++it)
                     C01_COLLECT(it->id);
                 expect_seq("forward!=model", "igris::slist begin()..end() with ++it", l, got, m);
@@ -388,10 +384,12 @@ namespace c01
         {
             for (int l = 0; l < L; l++)
             {
-                Seq got;
+                static Seq got;
+                got.clear();
                 int guard = N + 2;
-                while (slist_head *r = slist_pop_first(head[l]))
+                while (!slist_empty(head[l]))
                 {
+                    slist_head *r = slist_pop_first(head[l]);
                     int i = find_node(r);
                     if (i < 0 || --guard < 0)
                         bad("structure:stale-link", "draining list %d pops %s", l, whois(r).c_str());
@@ -402,7 +400,7 @@ namespace c01
                 if (!slist_empty(head[l]))
                     bad("empty!=model", "list %d not empty after popping everything", l);
                 model[l].clear();
-                VF_OK("slist: popping until NULL yields the model order and leaves an empty head");
+                VF_OK("slist: popping until empty yields the model order and leaves an empty head");
             }
             for (int l = 0; l < XL; l++)
             {
